@@ -117,7 +117,7 @@ PROPS = {
                 "digit-arithmetic aliases, trimmed/lower-cased) decoded four times through fresh and reused receivers.",
     },
     "C13": {
-        "theorems": ["FinProto.Obl.C13_prims", "FinProto.writeFixed_length", "FinProto.writeFixed_long", "FinProto.writeFixed_exact", "FinProto.writeFixed_short_left", "FinProto.writeFixed_short_right", "FinProto.trimL_spec", "FinProto.trimR_spec", "FinProto.readFixed_eq", "FinProto.trim_writeFixed", "FinProto.writeFixed_trim", "FinProto.writeFixeds_ok", "FinProto.readFixeds_writeFixeds"],
+        "theorems": ["FinProto.Obl.C13_fixed_fields", "FinProto.Obl.C13_prims", "FinProto.writeFixed_length", "FinProto.writeFixed_long", "FinProto.writeFixed_exact", "FinProto.writeFixed_short_left", "FinProto.writeFixed_short_right", "FinProto.trimL_spec", "FinProto.trimR_spec", "FinProto.readFixed_eq", "FinProto.trim_writeFixed", "FinProto.writeFixed_trim", "FinProto.writeFixeds_ok", "FinProto.readFixeds_writeFixeds"],
         "aspects": {**ENC_BYTES, **DEC_ALL},
         "rule": "N in 0..40 x pad bytes {space,'0',NUL,0xE9,0x80,0xFF,'A',0xC3,0xA9,random} x both sides x text generator (incl. multi-byte "
                 "runes); reads of arbitrary N-byte fields; exhaustive for N<=2 over strings of length <=2 (<=3 thorough) over {pad,'a',NUL,0xC3}.",
